@@ -23,7 +23,8 @@ esac
 echo "demo package dir: $pkgdir (package $pkgline)"
 cp $demo $pkgdir/zz_seed_demo_test.go
 echo "== demo on pristine tree"; go test -count=1 -vet=off -run 'Seed|seed|Demo|ZZ|Zz' ./$pkgdir 2>&1 | tail -5; clean=${PIPESTATUS[0]}
-git apply $SRC/patch.diff || { echo "patch does not apply"; echo NOT-CONFIRMED; exit 1; }
+git apply $SRC/patch.diff 2>/dev/null || patch -p1 -F3 --no-backup-if-mismatch < $SRC/patch.diff || { echo "patch does not apply"; echo NOT-CONFIRMED; exit 1; }
+find . -name '*.orig' -delete; git diff > /tmp/seedpatch-$P-$N.diff   # the patch as it applies to the current tree
 echo "== build with patch"; go build ./... && go vet -vettool=/bin/true ./... >/dev/null 2>&1; go test -count=1 -vet=off -run '^$' ./... 2>&1 | grep -v "^ok\|no test files" | head
 echo "== demo with patch"; go test -count=1 -vet=off -run 'Seed|seed|Demo|ZZ|Zz' ./$pkgdir 2>&1 | tail -15; bad=${PIPESTATUS[0]}
 rm -f $pkgdir/zz_seed_demo_test.go
